@@ -126,7 +126,26 @@ def eval_inv(ex: Any, iv: Any, st: State, extra: Dict[str, Any]) -> Tuple[Any, S
     return r, st
 
 
+def _output_only(body: List[ast.stmt]) -> bool:
+    """loop body made of print/logger calls only: no effect on the program state (DESIGN §2.1)"""
+    from .execbase import DROPPED_CALL_PREFIXES
+    for b in body:
+        if not (isinstance(b, ast.Expr) and isinstance(b.value, ast.Call)):
+            return False
+        f = b.value.func
+        root = f
+        while isinstance(root, ast.Attribute):
+            root = root.value
+        if not (isinstance(root, ast.Name) and (root.id == "print" or root.id.startswith(DROPPED_CALL_PREFIXES))):
+            return False
+    return True
+
+
 def exec_for(ex: Any, s: ast.For, st: State) -> Iterator[Tuple[str, Any, State]]:
+    if _output_only(s.body) and not s.orelse:
+        for _, st1 in ex.ev(s.iter, st):
+            yield "fall", None, st1
+        return
     for it, st1 in ex.ev(s.iter, st):
         invs = find_invariants(ex, s, st1)
         items = ex.concrete_items(it, st1) if not invs else None
